@@ -28,6 +28,19 @@ def pre_build(ctx):
 ALLOW = ("bounds", "scaling", "proj", "avg", "soft", "hard", "npt", "growing", "regression", "noise", "diag", "randinit", "parallel", "regu")
 
 
+def mutate(rng, prob, kw, d):
+    # hard restarts whose later runs still improve: loose rhoend so that a run ends with budget left
+    if d.get("restarts") != "soft" and rng.random() < 0.12:
+        up = dict(kw.get("user_params", {}) or {})
+        up["restarts.use_restarts"] = True
+        up["restarts.use_soft_restarts"] = False
+        kw["user_params"] = up
+        rb = float(kw.get("rhobeg", d.get("rhobeg", 0.1)))
+        kw["rhoend"] = rb * 10.0 ** (-rng.uniform(1.0, 2.5))
+        kw["maxfun"] = int(rng.integers(80, 250))
+        d.update(restarts="hard", rhoend=kw["rhoend"], maxfun=kw["maxfun"], user_params=up, hard_improving=True)
+
+
 def compare_candidate(a, t, d, kw):
     """acceptor's candidate 'pt:en:ns:v:resid' vs the real result"""
     r = t.result
@@ -56,7 +69,7 @@ def compare_candidate(a, t, d, kw):
 
 def _runs(ctx):
     if not hasattr(ctx, "_runs"):
-        runs, metas, stats = ss.run_trace_property(ctx, "book", 300, 3000, 303, None, allow=ALLOW)
+        runs, metas, stats = ss.run_trace_property(ctx, "book", 300, 3000, 303, None, allow=ALLOW, mutate_cfg=mutate)
         r2, m2 = ss.budget_sweep(ctx, 303, 4, 30)
         stats["budget_sweep_runs"] = len(r2)
         ctx._runs = (runs + r2, metas + m2, stats)
@@ -92,7 +105,7 @@ def replay(payload):
     if len(rp["seed"]) == 5:
         _seed, prob, kw, d, t, _f = ss.replay_sweep(dfols, rp["seed"])
     else:
-      prob, kw, d, t = ss.gen_run(dfols, rp["seed"], allow=ALLOW)
+      prob, kw, d, t = ss.gen_run(dfols, rp["seed"], allow=ALLOW, mutate_cfg=mutate)
     res = so.c03(t, d, h=kw.get("h"))
     print("replay:", res if res else "property holds on this input now")
     return 1 if res else 0
